@@ -456,8 +456,12 @@ def build(tier):
         vcs += r[0]
         fns.append(r[1])
     vcs += lemmas()
+    import ball
+    bvcs, bfns, bounded = ball.build(tier)
+    vcs += bvcs
+    fns += bfns
     return {
-        'targets': lambda_targets() + [gboost_ctor_target(), gboost_target(), rsplit_target()], 'vcs': vcs, 'functions': fns,
+        'targets': lambda_targets() + [gboost_ctor_target(), gboost_target(), rsplit_target()], 'vcs': vcs, 'functions': fns, 'bounded': bounded,
         'decided': [
             'k-fold and random splitter, for every n in [0, 2^56], folds in [2,100], seed, percentage in [10,90], every fold: |train|+|valid| == n; every input element is copied exactly once into exactly one of train/valid and every slot of both is filled exactly once (=> disjoint, union == input for distinct inputs); both parts are sorted by std::sort over their whole range; one pair per fold',
             'k-fold: fold f validates exactly positions [f*chunk, f+1<folds ? (f+1)*chunk : n) of the shuffled input, these ranges tile [0,n) (each element validated by exactly one fold), sizes lie in [chunk, chunk+folds) (differ by less than folds)',
